@@ -100,6 +100,10 @@ def leaf_role(ctx, path):
         m = re.search(r'HashMap::<std::string::String, mem::queue::MemQueue>::(\w+)', cs.name)
         if m and m.group(1) in MAP_MUT:
             ms.add(m.group(1))
+    if 'entry' in ms and any(re.search(r'hash_map::(VacantEntry|Entry)::<.*>::(insert|insert_entry|or_insert|or_insert_with|or_insert_with_key|or_default)$', cs.name) for cs in b.calls):
+        # the entry API used to insert is the insert role
+        ms.discard('entry')
+        ms.add('insert')
     if ms:
         return ('map', frozenset(ms))
     return ('path', path)
